@@ -418,6 +418,22 @@ def r_pred_wiring(model, rep):
 RID_CLASSES = [("plain", "ga"), ("plain", "other"), ("dashed", "ga"), ("dashed", "other")]
 
 
+def _rid_parts(d, prefix_p):
+    """{'short': term, 'version': term, 'type': term} when ``d`` is the dict literal holding the three parts - under their plain
+    names or under prefix + name - else None"""
+    if d[0] != "dict" or len(d[1]) != 3:
+        return None
+    out = {}
+    for k, v in d[1]:
+        if k[0] == "const" and isinstance(k[1], str):
+            out[k[1]] = v
+        elif k[0] == "fmt" and len(k[1]) == 2 and (k[1][0] == prefix_p or k[1][0][0] == "const") and k[1][1][0] == "const":
+            out[k[1][1][1]] = v
+        else:
+            return None
+    return out if set(out) == {"short", "version", "type"} else None
+
+
 def r_rid_roundtrip(model, rep):
     """parse_release_id(create_release_id(short, version, type)) == (short, version, type), decided by abstract interpretation
     of the parser's def-use terms on *segment strings*: the identifier is the writer's own format (scenario evaluation of
@@ -443,19 +459,14 @@ def r_rid_roundtrip(model, rep):
     cx = facts.fctx(model, f)
     rid_p = ("param", cx.params[0])
     res = None
+    prefix_p = ("param", cx.params[1]) if len(cx.params) > 1 else None
     for ev in cx.events:
         if ev.kind == "bind" and ev.raw is not None and ev.raw[0] == "local" and ev.raw[3][0] == "dict":
-            keys = dict((k[1], v) for k, v in ev.raw[3][1] if k[0] == "const")
-            if set(keys) == {"short", "version", "type"}:
-                res = keys
+            res = _rid_parts(ev.raw[3], prefix_p) or res
     if res is None:
         rets = [ev for ev in cx.events if ev.kind == "return"]
         for r in rets:
-            v = T.unwrap(r.raw)
-            if v[0] == "dict":
-                keys = dict((k[1], x) for k, x in v[1] if k[0] == "const")
-                if set(keys) == {"short", "version", "type"}:
-                    res = keys
+            res = _rid_parts(T.unwrap(r.raw), prefix_p) or res
     if res is None:
         raise AnalysisError("_parse_release_id_part: the {short, version, type} result is not recognisable (idiom not understood)")
     # 'first element of a constant table satisfying a test' loops
@@ -541,6 +552,104 @@ def r_rid_roundtrip(model, rep):
                              "with the same part parser")
 
 
+def _eval_small(t, bound=None):
+    """evaluate a term made of literals, string building, dict literals, lookups in them and one-generator comprehensions over
+    them (what a key-renaming step is made of); raises ValueError on anything else"""
+    bound = bound or {}
+    k = t[0]
+    if k == "const":
+        return t[1]
+    if k == "bound":
+        if t[1] in bound:
+            return bound[t[1]]
+        raise ValueError("unbound %s" % t[1])
+    if k == "local" and len(t) > 3 and isinstance(t[3], tuple):
+        return _eval_small(t[3], bound)
+    if k == "fmt":
+        return "".join(str(_eval_small(x, bound)) for x in t[1])
+    if k == "tuple":
+        return tuple(_eval_small(x, bound) for x in t[1])
+    if k in ("list",):
+        return [_eval_small(x, bound) for x in t[1]]
+    if k == "dict":
+        return dict((_eval_small(a, bound), _eval_small(b, bound)) for a, b in t[1])
+    if k == "sub":
+        return _eval_small(t[1], bound)[_eval_small(t[2], bound)]
+    if k == "binop" and t[1] == "+":
+        return _eval_small(t[2], bound) + _eval_small(t[3], bound)
+    if k == "comp" and len(t[3]) == 1 and not t[3][0][2]:
+        var = t[3][0][0][1]
+        src = _eval_small(t[3][0][1], bound)
+        vals = [_eval_small(t[2], dict(bound, **{var: x})) for x in (sorted(src) if isinstance(src, dict) else src)]
+        return dict(vals) if t[1] == "dict" else set(vals) if t[1] == "set" else vals
+    if k == "call" and t[1] == ("global", "dict") and len(t[2]) == 1 and not t[3]:
+        return dict(_eval_small(t[2][0], bound))
+    if k == "call" and t[1] == ("global", "sorted") and len(t[2]) == 1 and not t[3]:
+        return sorted(_eval_small(t[2][0], bound))
+    raise ValueError("not evaluable: %s" % T.show(t)[:60])
+
+
+def r_rid_result(model, rep):
+    """what the two parser functions hand back: _parse_release_id_part returns the {short, version, type} it computed under the
+    keys prefix+name; parse_release_id returns the release part's dict updated with the base-product part's (prefix 'bp_')"""
+    f = model.function("common", "_parse_release_id_part")
+    cx = facts.fctx(model, f)
+    rets = [ev for ev in cx.events if ev.kind == "return"]
+    ok, msg = bool(rets), "no return"
+    for ev in rets:
+        for prefix in ("", "bp_"):
+            prefix_p = ("param", cx.params[1]) if len(cx.params) > 1 else None
+
+            def marked(d):
+                # the three computed parts replaced by markers (their values are R-RID-ROUNDTRIP's business), keys kept
+                parts = _rid_parts(d, prefix_p)
+                if parts is None:
+                    return None
+                names = dict((id(v), n) for n, v in parts.items())
+                return ("dict", tuple((T.subst(k, fn), ("const", "<%s>" % names[id(v)])) for k, v in d[1]))
+
+            def fn(x):
+                if x == prefix_p:
+                    return ("const", prefix)
+                if x[0] == "local" and len(x) > 3 and isinstance(x[3], tuple) and x[3]:
+                    return (marked(x[3]) if x[3][0] == "dict" else None) or T.subst(x[3], fn)
+                if x[0] == "dict":
+                    return marked(x)
+                return None
+            t = T.subst(ev.value, fn)
+            try:
+                got = _eval_small(T.canon(t))
+            except (ValueError, KeyError, TypeError) as e:
+                raise AnalysisError("_parse_release_id_part: the returned value is not understood (%s)" % e)
+            want = dict((prefix + k, "<%s>" % k) for k in ("short", "version", "type"))
+            if got != want:
+                ok, msg = False, "with prefix %r the part parser returns keys %s instead of %s" % (
+                    prefix, sorted(got) if isinstance(got, dict) else got, sorted(want))
+    rep.ob("R-RID-ROUNDTRIP", "_parse_release_id_part:result-keys", ok, site=cx.site(f.node), msg="" if ok else msg)
+    g = model.function("common", "parse_release_id")
+    gcx = facts.fctx(model, g)
+
+    def is_part(t, prefixed):
+        t = T.unwrap(t)
+        return t[0] == "call" and t[1] == ("global", "_parse_release_id_part") and bool(t[3]) == prefixed
+    rets = [ev for ev in gcx.events if ev.kind == "return"]
+    upd = [ev for ev in gcx.events if ev.kind == "call" and ev.value[1][0] == "attr" and ev.value[1][2] == "update"
+           and is_part(ev.value[1][1], False) and len(ev.value[2]) == 1 and is_part(ev.value[2][0], True)]
+    gp = ("param", gcx.params[0])
+    has_at = ("cmp", ("in",), (("const", "@"), gp))
+    ok = bool(rets)
+    for at in (False, True):
+        # with an '@': the release part's dict, updated with the base-product part's before it is returned; without: as it is
+        sc = facts.Scenario(gcx, atoms={has_at: at})
+        live = [ev for ev in rets if sc.holds(ev) is not False]
+        merged = [ev for ev in upd if sc.holds(ev) is not False]
+        ok = ok and len(live) == 1 and is_part(live[0].value, False) and len(merged) == (1 if at else 0) \
+            and all(u.seq < live[0].seq for u in merged)
+    rep.ob("R-RID-ROUNDTRIP", "parse_release_id:result-merged", ok, site=gcx.site(g.node),
+           msg="" if ok else "parse_release_id must return the release part's result updated with the base-product part's "
+                             "(exactly when the identifier has an '@')")
+
+
 def r_types_table(model, rep, pats, U):
     types = model.const("common", "RELEASE_TYPES")
     missing = [t for t in RELEASE_TYPES_MIN if t not in types]
@@ -596,6 +705,14 @@ def check_c14(model, rep, tier):
     r_stateless(model, rep, [model.function("common", n) for n in (
         "is_valid_release_short", "is_valid_release_version", "is_valid_release_type", "create_release_id", "parse_release_id",
         "_parse_release_id_part", "split_version")])
+    try:
+        r_rid_result(model, rep)
+    except AnalysisError as e:
+        # a result the evaluator cannot follow (a cache in front of it ...): if the rules above already report the function,
+        # that report stands; otherwise the check cannot decide
+        if not rep.failed():
+            raise
+        rep.note("result rules skipped: %s" % e)
     rep.extra["exhaustive"] = True
 
 
